@@ -13,7 +13,7 @@ def nodupInts : List Int → Bool
   | a :: t => !t.contains a && nodupInts t
 
 /-- Evaluates one case; `none` = malformed.
-* `site <file> <func> <hash>` (a map-range loop found by the harness's own run of tools/factgen on the tree
+* `site <file> <func> <hash> <ctx>` (a map-range loop found by the harness's own run of tools/factgen on the tree
   under test) → `covered` when the expectation table classifies it, else `uncovered`;
 * `gen <grammar> <h₁> <h₂> …` (digest of all files written, one per run: in-process repetitions and child
   processes with GOMAXPROCS 1 and 16) → `same` / `differ`;
@@ -23,8 +23,8 @@ def nodupInts : List Int → Bool
   `holds` / `fails`; `inv argrefs <grammar> <keys> <pos fields>`: hypothesis of `compilerAddTypes`
   (`ArgRefs[k].Pos = k`). -/
 def eval : List String → Option String
-  | ["site", file, func, hash] =>
-    some (if (lookupSite file func hash).isSome then "covered" else "uncovered")
+  | ["site", file, func, hash, ctx] =>
+    some (if (lookupSite file func hash ctx).isSome then "covered" else "uncovered")
   | "gen" :: _ :: hashes => some (if allSame hashes then "same" else "differ")
   | ["shipped", _, _, ndiff] => do
     let n ← parseNat? ndiff
